@@ -53,7 +53,7 @@ func evArgs(e string) []string {
 // Project reduces an output line to the observables a property talks about.
 func Project(prop string, line string) string {
 	if !strings.HasPrefix(line, "res=") {
-		if prop == "C05" || prop == "all" || prop == "C11" || prop == "C06" || prop == "C13" {
+		if prop == "C05" || prop == "all" || prop == "C11" || prop == "C06" || prop == "C13" || prop == "C04" {
 			return line // includes topo, subscription answers
 		}
 		return "cfg"
@@ -102,7 +102,7 @@ func Project(prop string, line string) string {
 	case "C03":
 		return "res=" + f["res"] + " act=" + f["act"] + " clk=" + f["clk"] + " qt=" + f["qt"] + crash + " " + sel("N")
 	case "C04":
-		return "res=" + f["res"] + " qt=" + f["qt"] + " q=" + f["q"] + crash + " " + sel("MQ", "TI", "QE", "N")
+		return "res=" + f["res"] + " qt=" + f["qt"] + " q=" + f["q"] + " cl=" + f["cl"] + crash + " " + sel("MQ", "TI", "QE", "N", "W")
 	case "C05":
 		return sel("H") + crash
 	case "C07":
